@@ -46,7 +46,9 @@ func New(limit dag.Metric, callback Callback) *EventsBuffer {
 		callback: callback,
 		limit:    limit,
 	}
-	buf.incompletes, _ = wlru.New(math.MaxInt32, math.MaxInt32)
+	// the limits are enforced by spillIncompletes (which reports the spilled events as released),
+	// the cache itself must never evict silently
+	buf.incompletes, _ = wlru.New(math.MaxUint, math.MaxInt)
 	return buf
 }
 
